@@ -476,3 +476,191 @@ def summary_link(ctx):
             ctx.report(f"macros.html:{line}: a hidden entity's summary (with its 'Read more' link) is printed",
                        {"full_docstring": z3.is_true(m.eval(full, model_completion=True)), "entity.visible": False}, replay_summary_link)
     ctx.sample({"sites": [l for _, l in sites]})
+
+
+# ---------------------------------------------------------------------------------------
+# O5: an entity printed by a template becomes `<a href='ABSOLUTE output path'>` (FortranBase.__str__); only the `relurl` filter
+# makes it relative.  Every reachable print site of an entity-valued expression must pass through it.
+# ---------------------------------------------------------------------------------------
+ENTITY_ATTRS = {"bindings", "uses", "ancestry", "calls", "extends", "proto", "ancestor", "procedure", "retvar", "prototype"}
+NON_LINK_FILTERS = {"length", "count", "first", "last", "meta", "striptags", "lower", "upper"}
+O5_PROJECT = {"a.f90": """module shapes
+  type circle
+    real :: r
+  contains
+    procedure :: area => circle_area
+    procedure :: grow, shrink
+    generic :: resize => grow, shrink
+  end type circle
+  type, extends(circle) :: disc
+  end type disc
+  abstract interface
+    function maker(x)
+      import circle
+      real :: x
+      type(circle) :: maker
+    end function maker
+  end interface
+  interface
+    function extmaker(x)
+      import circle
+      real :: x
+      type(circle) :: extmaker
+    end function extmaker
+  end interface
+contains
+  function circle_area(self)
+    !! doc
+    class(circle) :: self
+    real :: circle_area
+  end function circle_area
+  subroutine grow(self)
+    class(circle) :: self
+  end subroutine grow
+  subroutine shrink(self)
+    class(circle) :: self
+    call grow(self)
+  end subroutine shrink
+end module shapes
+program main
+  use shapes
+  type(disc) :: d
+  call d%resize()
+end program main
+"""}
+
+
+def _raw_entity_sites():
+    import glob
+    import os
+    import ford.output as out
+    from jinja2 import nodes
+
+    def strip(e):
+        rel = False
+        while isinstance(e, nodes.Filter):
+            if e.name == "relurl" or (e.name == "map" and e.args and isinstance(e.args[0], nodes.Const) and e.args[0].value == "relurl"):
+                rel = True
+            if e.name in NON_LINK_FILTERS:
+                return None, rel
+            e = e.node
+        return e, rel
+
+    def cond(e, names):
+        """template condition -> z3 Bool over fresh propositional atoms (one per distinct sub-expression text)"""
+        if isinstance(e, nodes.Not):
+            return z3.Not(cond(e.node, names))
+        if isinstance(e, nodes.And):
+            return z3.And(cond(e.left, names), cond(e.right, names))
+        if isinstance(e, nodes.Or):
+            return z3.Or(cond(e.left, names), cond(e.right, names))
+        if isinstance(e, nodes.Const):
+            return z3.BoolVal(bool(e.value))
+        key = repr(e)
+        return names.setdefault(key, z3.Bool(f"c{len(names)}"))
+
+    tdir = os.path.join(os.path.dirname(out.__file__), "templates")
+    sites, texts = [], {}
+    for path in sorted(glob.glob(os.path.join(tdir, "*.html"))):
+        src = open(path).read()
+        texts[os.path.basename(path)] = src
+        tree = out.env.parse(src)
+        names = {}
+
+        def walk(body, conds, loopvars):
+            for n in body:
+                if isinstance(n, nodes.If):
+                    c = cond(n.test, names)
+                    walk(n.body, conds + [c], loopvars)
+                    neg = [z3.Not(c)]
+                    for el in n.elif_:
+                        ce = cond(el.test, names)
+                        walk(el.body, conds + neg + [ce], loopvars)
+                        neg.append(z3.Not(ce))
+                    walk(n.else_, conds + neg, loopvars)
+                elif isinstance(n, nodes.For):
+                    lv = dict(loopvars)
+                    base, _ = strip(n.iter)
+                    if isinstance(base, nodes.Getattr) and base.attr in ENTITY_ATTRS and isinstance(n.target, nodes.Name):
+                        lv[n.target.name] = base.attr
+                    walk(n.body, conds, lv)
+                    walk(n.else_, conds, loopvars)
+                elif isinstance(n, nodes.Output):
+                    for e in n.nodes:
+                        if isinstance(e, nodes.TemplateData):
+                            continue
+                        base, rel = strip(e)
+                        if base is None:
+                            continue
+                        hit = None
+                        if isinstance(base, nodes.Getattr) and base.attr in ENTITY_ATTRS:
+                            hit = base.attr
+                        elif isinstance(base, nodes.Getitem) and isinstance(base.node, nodes.Getattr) and base.node.attr in ENTITY_ATTRS:
+                            # `proto` is (entity, text of the parenthesised rest): only element 0 is an entity
+                            if not (base.node.attr == "proto" and isinstance(base.arg, nodes.Const) and base.arg.value != 0):
+                                hit = base.node.attr + "[..]"
+                        elif isinstance(base, nodes.Name) and base.name in loopvars:
+                            hit = "loop over " + loopvars[base.name]
+                        if hit:
+                            sites.append(dict(template=os.path.basename(path), line=n.lineno, what=hit, relurl=rel,
+                                              cond=z3.And(*conds) if conds else z3.BoolVal(True)))
+                else:
+                    for fld in ("body", "else_"):
+                        v = getattr(n, fld, None)
+                        if isinstance(v, list):
+                            walk(v, conds, loopvars)
+        walk(tree.body, [], {})
+    return sites, texts
+
+
+def replay_absolute_links(w):
+    import os
+    import re as _re
+    import shutil
+    d, outdir, rc, log = fordrun.run_ford(dict(O5_PROJECT), {"search": "false", "proc_internals": "true"})
+    bad = []
+    try:
+        if rc != 0:
+            return False, {"ford failed": log[-300:]}
+        for root, _, fs in os.walk(outdir):
+            for f in fs:
+                if f.endswith(".html"):
+                    txt = open(os.path.join(root, f), errors="replace").read()
+                    for m in _re.finditer(r"""href=['"](/[^'"]*)['"]""", txt):
+                        bad.append((os.path.relpath(os.path.join(root, f), outdir), m.group(1).replace(d, "<tmp>")))
+    finally:
+        shutil.rmtree(d, ignore_errors=True)
+    return bool(bad), {"site": w, "absolute hrefs in the generated pages": sorted(set(bad))[:8]}
+
+
+@obligation("C09", "O5.entity-links-pass-relurl", engine="JX", timeout=300)
+def entity_links_relative(ctx):
+    """every template print site of an entity-valued expression (bindings, uses, ancestry, calls, extends, proto, ancestor, procedure, retvar:
+    printed as <a href=absolute path>) that can be reached (its enclosing conditions are satisfiable) passes through the relurl filter"""
+    import ford.sourceform as sf
+    import ford.output as out
+
+    sites, texts = _raw_entity_sites()
+    for name, src in texts.items():
+        ctx.encode_text("templates/" + name, src, "jinja-template")
+    ctx.encode_fn(sf.FortranBase.__str__)
+    ctx.encode_fn(out.relative_url)
+    ctx.bounds.update({"entity-valued attributes": sorted(ENTITY_ATTRS), "print sites": len(sites)})
+    if len(sites) < 5:
+        ctx.inconclusive.append(f"only {len(sites)} entity print sites found: the template analysis needs review")
+        return
+    nrel = 0
+    for s_ in sites:
+        label = f"{s_['template']}:{s_['line']} prints {s_['what']}"
+        if s_["relurl"]:
+            nrel += 1
+            continue
+        if s_["template"] == "mod_list.html" and s_["what"] == "parent":
+            continue
+        r, m = ctx.solve(label + ": reachable without relurl", [s_["cond"]])
+        if r == "sat":
+            ctx.report(label + " as an absolute link (no relurl filter)", {"template": s_["template"], "line": s_["line"], "prints": s_["what"]},
+                       replay_absolute_links)
+    if nrel:
+        ctx.twins += 1
+    ctx.sample({"sites": len(sites), "through relurl": nrel})
